@@ -150,9 +150,6 @@ theorem okAt_strip (b : Bool) (n : Node) : Node.okAt b (strip n) ↔ Node.okAt b
 theorem okAt_root_iff (m : Meta) (c : Bytes) (ks : List Node) :
     Node.okAt true (.mk m c ks) ↔ SibsOk (metas ks) ∧ ∀ k ∈ ks, Node.okAt false k := by
   rw [Node.okAt, nodesOk_iff]
-  constructor
-  · intro h; exact ⟨h.1, h.2.2⟩
-  · intro h; exact ⟨h.1, (fun hh => (by cases hh)), h.2⟩
 
 /-- a re-read document satisfies the hypotheses of the digest theorems if the written one does -/
 theorem Reread.okAt {d d' : Node} (h : Reread d d') (hd : Node.okAt true d) : Node.okAt true d' := by
@@ -420,7 +417,9 @@ theorem payload_eq_filter (kids : List Node) :
 theorem insert_eq (m : Meta) (c : Bytes) (kids : List Node) (pkcs exsig : Bytes) (s₁ s₂ : Nat)
     (ha : noAliasB kids = true) (hs : sigsAreStreamsB kids = true) :
     insertMSISignature (.mk m c kids) pkcs exsig s₁ s₂ = .ok (.mk m c (inserted kids pkcs exsig s₁ s₂)) := by
-  unfold insertMSISignature inserted
+  unfold insertMSISignature
+  simp only [Node.kids, ha, Bool.not_true, Bool.false_eq_true, if_false]
+  unfold insertMSISignatureOrig inserted
   simp only [Node.kids, Node.meta, Node.content]
   have hlen1 : ¬ (sigExName.length + 1 > 32) := by decide
   have hlen2 : ¬ (sigName.length + 1 > 32) := by decide
@@ -572,7 +571,7 @@ theorem sibsOk_inserted (kids : List Node) (pkcs ex : Bytes) (s₁ s₂ : Nat) (
 
 theorem okAt_leaf (b : Bool) (m : Meta) (c : Bytes) : Node.okAt b (.mk m c []) := by
   rw [Node.okAt]
-  refine ⟨⟨fun _ h => (by cases h), List.Pairwise.nil⟩, (fun _ _ h => (by cases h)), ?_⟩
+  refine ⟨⟨fun _ h => (by cases h), List.Pairwise.nil⟩, ?_⟩
   rw [Nodes.ok]; trivial
 
 theorem okAt_inserted (m : Meta) (c : Bytes) (kids : List Node) (pkcs ex : Bytes) (s₁ s₂ : Nat)
@@ -608,34 +607,23 @@ theorem inputs_inserted (m : Meta) (c : Bytes) (kids : List Node) (pkcs ex : Byt
     rw [specFilter_eq_payload _ h'.1, specFilter_eq_payload _ h.1, payload_inserted]
   exact ⟨hashInput_perm m m c c _ _ rfl h' h hk, prehashInput_perm m m c c _ _ rfl h' h hk⟩
 
-/-! ### the tar-safety hypothesis survives as well -/
+/-! ### `checkMsiTarNames` lets the result through as well -/
 
-theorem tarSafeB_all (path : List Nat) : ∀ ks : List Node, tarSafeB path ks = ks.all (tarSafeNode path)
-  | [] => by rw [tarSafeB]; rfl
-  | n :: r => by rw [tarSafeB, tarSafeB_all path r]; rfl
-
-theorem msiDecode_sig : msiDecodeName sigName = sigName := by decide
-theorem msiDecode_ex : msiDecodeName sigExName = sigExName := by decide
-
-theorem tarSafe_sigNode (p : Bytes) (s : Nat) : tarSafeNode [] (sigNode p s) = true := by
-  unfold sigNode
-  rw [tarSafeNode]
+theorem rootOk_sigNode (p : Bytes) (s : Nat) : rootOkB (sigNode p s) = true := by
+  unfold rootOkB sigNode
   have ht : (newMeta sigName p.length s).typ = typStream := rfl
-  have hi : isSig (newMeta sigName p.length s) = true := by simp [isSig, goName_newMeta_sig]
-  simp only [ht, if_true, goName_newMeta_sig, msiDecode_sig, hi, List.nil_append]
+  simp only [Node.meta, ht, if_true, goName_newMeta_sig, msiDecodeName_sig]
   decide
 
-theorem tarSafe_exNode (p : Bytes) (s : Nat) : tarSafeNode [] (exNode p s) = true := by
-  unfold exNode
-  rw [tarSafeNode]
+theorem rootOk_exNode (p : Bytes) (s : Nat) : rootOkB (exNode p s) = true := by
+  unfold rootOkB exNode
   have ht : (newMeta sigExName p.length s).typ = typStream := rfl
-  have hi : isSig (newMeta sigExName p.length s) = true := by simp [isSig, goName_newMeta_ex]
-  simp only [ht, if_true, goName_newMeta_ex, msiDecode_ex, hi, List.nil_append]
+  simp only [Node.meta, ht, if_true, goName_newMeta_ex, msiDecodeName_sigEx]
   decide
 
-theorem tarSafe_inserted (kids : List Node) (pkcs ex : Bytes) (s₁ s₂ : Nat) (h : tarSafeB [] kids = true) :
-    tarSafeB [] (inserted kids pkcs ex s₁ s₂) = true := by
-  rw [tarSafeB_all, List.all_eq_true] at h ⊢
+theorem tarRootOk_inserted (kids : List Node) (pkcs ex : Bytes) (s₁ s₂ : Nat) (h : tarRootOkB kids = true) :
+    tarRootOkB (inserted kids pkcs ex s₁ s₂) = true := by
+  rw [tarRootOkB_all, List.all_eq_true] at h ⊢
   intro n hn
   unfold inserted at hn
   rcases List.mem_append.mp hn with h' | h'
@@ -643,10 +631,9 @@ theorem tarSafe_inserted (kids : List Node) (pkcs ex : Bytes) (s₁ s₂ : Nat) 
     · exact h n (List.mem_filter.mp h'').1
     · by_cases he : ex.length > 0
       · simp only [he, if_true, List.mem_singleton] at h''
-        rw [h'']; exact tarSafe_exNode _ _
+        rw [h'']; exact rootOk_exNode _ _
       · simp [he] at h''
-  · rw [List.mem_singleton.mp h']; exact tarSafe_sigNode _ _
-
+  · rw [List.mem_singleton.mp h']; exact rootOk_sigNode _ _
 
 /-! ### what `VerifyMSI` locates -/
 
@@ -830,13 +817,13 @@ theorem DocOk.reread {d d' : Node} (hd : DocOk d) (h : Reread d d') : DocOk d' :
    all_reread h _ (fun n => by cases n; rfl) hd.noAlias,
    all_reread h _ (fun n => by cases n; rfl) hd.streams⟩
 
-theorem tarSafeNode_strip (n : Node) : tarSafeNode [] (strip n) = tarSafeNode [] n := by
+theorem rootOkB_strip (n : Node) : rootOkB (strip n) = rootOkB n := by
   cases n with
-  | mk m c k => simp only [strip]; rw [tarSafeNode, tarSafeNode]; rfl
+  | mk m c k => rfl
 
-theorem tarSafe_reread {d d' : Node} (h : Reread d d') (hs : tarSafeB [] d.kids = true) : tarSafeB [] d'.kids = true := by
-  rw [tarSafeB_all] at hs ⊢
-  exact all_reread h _ tarSafeNode_strip hs
+theorem tarRootOk_reread {d d' : Node} (h : Reread d d') (hs : tarRootOkB d.kids = true) : tarRootOkB d'.kids = true := by
+  rw [tarRootOkB_all] at hs ⊢
+  exact all_reread h _ rootOkB_strip hs
 
 theorem DocOk.afterInsert {d : Node} (hd : DocOk d) (pkcs ex : Bytes) (s₁ s₂ : Nat) :
     DocOk (.mk d.meta d.content (Relic.MsiSign.inserted d.kids pkcs ex s₁ s₂)) := by
@@ -866,21 +853,22 @@ theorem DocOk.walks {d : Node} (hd : DocOk d) (pkcs ex : Bytes) (s₁ s₂ : Nat
 
 /-- `MsiToTar` succeeds on such a document and `DigestMsiTar` of its members is the specification's digest input -/
 theorem msiToTar_total (d : Node) (hok : Node.okAt true d) (hr : d.meta.typ = typRoot)
-    (hsafe : tarSafeB [] d.kids = true) :
+    (hsafe : tarRootOkB d.kids = true) :
     ∃ ms, msiToTar d = .ok ms ∧
       ∀ (H : Bytes → Bytes) (ext : Bool), digestMsiTar H ext ms = Spec.MsiDigest.digestInput H d ext := by
   have hp := prehashMsiDir_eq d hok hr
   have hh := hashMsiDir_eq d hok
-  have hrel := tarDirOf_rel (fun x => x) false [] d.meta.clsid _ _ (tarItems_rel (fun x => x) false [] d.kids hsafe)
+  have hrel := tarDirOf_rel (fun x => x) false true [] d.meta.clsid _ _
+    (tarItems_rel_root (fun x => x) false d.kids (by rw [← tarRootOkB_all]; exact hsafe))
   unfold hashMsiDir at hh
   rw [hh] at hrel
   cases hb : tarDirOf [] d.meta.clsid (tarItems [] d.kids) with
   | ok body =>
     have ht : msiToTar d = .ok ((exmetaName, Spec.MsiDigest.prehashInput d) :: body) := by
-      unfold msiToTar; rw [hp, hb]; rfl
+      unfold msiToTar; simp only [hsafe, Bool.not_true, Bool.false_eq_true, if_false]; rw [hp, hb]; rfl
     refine ⟨_, ht, ?_⟩
     intro H ext
-    have h1 := msiToTar_digest H ext d hsafe _ ht
+    have h1 := msiToTar_digest H ext d _ ht
     have h2 : digestMSI H d ext = .ok (Spec.MsiDigest.digestInput H d ext) := by
       unfold digestMSI Spec.MsiDigest.digestInput
       rw [hashMsiDir_eq d hok, hp]
@@ -891,7 +879,6 @@ theorem msiToTar_total (d : Node) (hok : Node.okAt true d) (hr : d.meta.typ = ty
   | err e => rw [hb] at hrel; simp [RelRes] at hrel
   | panic e => rw [hb] at hrel; simp [RelRes] at hrel
   | diverge => rw [hb] at hrel; simp [RelRes] at hrel
-
 
 /-! ### the signer module in closed form; counting after re-reading -/
 
@@ -905,7 +892,7 @@ def imprintOf (H : Nat → Bytes → Bytes) (alg : Nat) (noExt : Bool) (d : Node
 /-- **the signer module on a document of the class**: it succeeds and leaves the payload entries, the pre-hash (unless
     `--no-extended-sig`) and the blob over the imprint computed from the tar form, which is the specification's -/
 theorem sign_eq (H : Nat → Bytes → Bytes) (mk : Nat → Bytes → Bytes) (d : Node) (hd : DocOk d)
-    (hsafe : tarSafeB [] d.kids = true) (alg : Nat) (noExt : Bool) (s₁ s₂ : Nat) :
+    (hsafe : tarRootOkB d.kids = true) (alg : Nat) (noExt : Bool) (s₁ s₂ : Nat) :
     signMSI H mk alg noExt d s₁ s₂ =
       .ok (.mk d.meta d.content (Relic.MsiSign.inserted d.kids (mk alg (imprintOf H alg noExt d)) (exValue H alg noExt d) s₁ s₂)) := by
   obtain ⟨ms, hms, hdig⟩ := msiToTar_total d hd.ok hd.root hsafe
@@ -914,6 +901,7 @@ theorem sign_eq (H : Nat → Bytes → Bytes) (mk : Nat → Bytes → Bytes) (d 
     rw [hdig]; unfold Spec.MsiDigest.digestInput exValue; cases noExt <;> rfl
   rw [← hd.insertOk]
   unfold signMSI
+  simp only [hd.noAlias, Bool.not_true, Bool.false_eq_true, if_false]
   rw [hp, hms]
   unfold imprintOf
   cases noExt <;> simp only [Res.bind_ok', Res.pure_eq, hsum] <;> rfl
@@ -945,5 +933,159 @@ theorem payloadSame_inserted (d : Node) (pkcs ex : Bytes) (s₁ s₂ : Nat) :
   refine ⟨rfl, ?_⟩
   simp only [Node.kids]
   rw [payload_inserted]
+
+
+/-! ### when `InsertMSISignature` and the signer module fail -/
+
+theorem addFile_ok (name : List Nat) (c : Bytes) (s : Nat) (ks kept : List Node) (hl : ¬ (name.length + 1 > 32))
+    (h : deleteFile name ks = .ok kept) :
+    addFile name c s ks = .ok (kept ++ [Node.mk (newMeta name c.length s) c []]) := by
+  unfold addFile; rw [h]; simp only [Res.bind_ok', hl, if_false, Res.pure_eq]
+
+theorem addFile_err (name : List Nat) (c : Bytes) (s : Nat) (ks : List Node) (e : String)
+    (h : deleteFile name ks = .err e) : addFile name c s ks = .err e := by
+  unfold addFile; rw [h]; rfl
+
+/-- a failing `DeleteFile` names its cause -/
+theorem deleteFile_cases (t : List Nat) (ks : List Node) :
+    deleteFile t ks = .ok (ks.filter (fun n => !equalFold (goName n.meta) t)) ∨
+    (deleteFile t ks = .err "storage" ∧ ∃ n ∈ ks, equalFold (goName n.meta) t = true ∧ n.meta.typ ≠ typStream) := by
+  rw [deleteFile_eq]
+  cases ha : (ks.all fun n => !equalFold (goName n.meta) t || n.meta.typ == typStream) with
+  | true => left; rfl
+  | false =>
+    right
+    rw [List.all_eq_false] at ha
+    obtain ⟨n, hn, hq⟩ := ha
+    simp only [Bool.or_eq_true, Bool.not_eq_true', beq_iff_eq, not_or] at hq
+    exact ⟨rfl, n, hn, by simpa using hq.1, hq.2⟩
+
+theorem equalFold_length : ∀ (a b : List Nat), equalFold a b = true → a.length = b.length
+  | [], [], _ => rfl
+  | [], _ :: _, h => by simp [equalFold] at h
+  | _ :: _, [], h => by simp [equalFold] at h
+  | x :: a, y :: b, h => by
+    simp only [equalFold, Bool.and_eq_true] at h
+    simp [equalFold_length a b h.2]
+
+theorem insertOrig_def (d : Node) (pkcs ex : Bytes) (s₁ s₂ : Nat) :
+    insertMSISignatureOrig d pkcs ex s₁ s₂ =
+      ((if ex.length > 0 then addFile sigExName ex s₁ d.kids else deleteFile sigExName d.kids) >>= fun k1 =>
+        addFile sigName pkcs s₂ k1 >>= fun k2 => pure (.mk d.meta d.content k2)) := by
+  unfold insertMSISignatureOrig
+  by_cases he : ex.length > 0 <;> simp only [he, if_true, if_false] <;> rfl
+
+/-- an entry of the root storage whose name folds to a signature name and that is not a stream makes
+    `InsertMSISignature` fail with the storage error -/
+theorem insertOrig_err_of_nonstream (d : Node) (pkcs ex : Bytes) (s₁ s₂ : Nat) (n : Node) (hn : n ∈ d.kids)
+    (hf : equalFold (goName n.meta) sigName = true ∨ equalFold (goName n.meta) sigExName = true)
+    (ht : n.meta.typ ≠ typStream) : insertMSISignatureOrig d pkcs ex s₁ s₂ = .err "storage" := by
+  have hl1 : ¬ (sigExName.length + 1 > 32) := by decide
+  rw [insertOrig_def]
+  rcases deleteFile_cases sigExName d.kids with h | ⟨h, _⟩
+  · -- the first step succeeds: then `n` folds to the signature name and survives it
+    have hsig : equalFold (goName n.meta) sigName = true := by
+      rcases hf with h' | h'
+      · exact h'
+      · exfalso
+        rw [deleteFile_eq] at h
+        cases ha : (d.kids.all fun n => !equalFold (goName n.meta) sigExName || n.meta.typ == typStream) with
+        | true =>
+          have := List.all_eq_true.mp ha n hn
+          simp [h', ht] at this
+        | false => rw [ha] at h; simp at h
+    have hnex : equalFold (goName n.meta) sigExName = false := by
+      cases hq : equalFold (goName n.meta) sigExName with
+      | false => rfl
+      | true =>
+        have l1 := equalFold_length _ _ hsig
+        have l2 := equalFold_length _ _ hq
+        rw [l1] at l2
+        exact absurd l2 (by decide)
+    have hmem : n ∈ d.kids.filter (fun n => !equalFold (goName n.meta) sigExName) :=
+      List.mem_filter.mpr ⟨hn, by simp [hnex]⟩
+    have second : ∀ k1 : List Node, n ∈ k1 → addFile sigName pkcs s₂ k1 = .err "storage" := by
+      intro k1 hk
+      apply addFile_err
+      rw [deleteFile_eq]
+      have : (k1.all fun n => !equalFold (goName n.meta) sigName || n.meta.typ == typStream) = false := by
+        rw [List.all_eq_false]
+        exact ⟨n, hk, by simp [hsig, ht]⟩
+      rw [this]; rfl
+    by_cases he : ex.length > 0
+    · simp only [he, if_true]
+      rw [addFile_ok _ _ _ _ _ hl1 h]
+      simp only [Res.bind_ok']
+      rw [second _ (List.mem_append_left _ hmem)]; rfl
+    · simp only [he, if_false, h, Res.bind_ok']
+      rw [second _ hmem]; rfl
+  · by_cases he : ex.length > 0
+    · simp only [he, if_true]; rw [addFile_err _ _ _ _ _ h]; rfl
+    · simp only [he, if_false, h]; rfl
+
+/-- a successful `InsertMSISignature` found only streams under the signature names -/
+theorem insert_ok_streams (d : Node) (pkcs ex : Bytes) (s₁ s₂ : Nat) (d₁ : Node)
+    (h : insertMSISignature d pkcs ex s₁ s₂ = .ok d₁) : noAliasB d.kids = true ∧ sigsAreStreamsB d.kids = true := by
+  unfold insertMSISignature at h
+  cases ha : noAliasB d.kids with
+  | false => rw [ha] at h; simp at h
+  | true =>
+    rw [ha] at h
+    simp only [Bool.not_true, Bool.false_eq_true, if_false] at h
+    refine ⟨rfl, ?_⟩
+    unfold sigsAreStreamsB
+    rw [List.all_eq_true]
+    intro n hn
+    by_cases hs : isSig n.meta = true
+    · by_cases ht : n.meta.typ = typStream
+      · simp [ht]
+      · exfalso
+        have hf : equalFold (goName n.meta) sigName = true ∨ equalFold (goName n.meta) sigExName = true := by
+          unfold isSig at hs
+          simp only [Bool.or_eq_true, decide_eq_true_eq] at hs
+          rcases hs with e | e
+          · left; rw [e]; exact equalFold_sig_refl
+          · right; rw [e]; exact equalFold_ex_refl
+        rw [insertOrig_err_of_nonstream d pkcs ex s₁ s₂ n hn hf ht] at h
+        cases h
+    · simp [hs]
+
+/-- **a successful signing passed all three tests**: no case-folding alias of a signature name, no reserved tar name in
+    the root storage, the entries carrying a signature name are streams -/
+theorem sign_ok_class (H : Nat → Bytes → Bytes) (mk : Nat → Bytes → Bytes) (alg : Nat) (noExt : Bool) (d d₁ : Node)
+    (s₁ s₂ : Nat) (h : signMSI H mk alg noExt d s₁ s₂ = .ok d₁) :
+    noAliasB d.kids = true ∧ sigsAreStreamsB d.kids = true ∧ tarRootOkB d.kids = true := by
+  unfold signMSI at h
+  cases ha : noAliasB d.kids with
+  | false => rw [ha] at h; simp at h
+  | true =>
+    rw [ha] at h
+    simp only [Bool.not_true, Bool.false_eq_true, if_false] at h
+    have fin : ∀ exsig, (msiToTar d >>= fun ms =>
+        insertMSISignature d (mk alg (H alg (digestMsiTar (H alg) (!noExt) ms))) exsig s₁ s₂) = .ok d₁ →
+        true = true ∧ sigsAreStreamsB d.kids = true ∧ tarRootOkB d.kids = true := by
+      intro exsig h
+      cases hm : msiToTar d with
+      | ok ms =>
+        rw [hm] at h
+        simp only [Res.bind_ok'] at h
+        exact ⟨rfl, (insert_ok_streams d _ _ s₁ s₂ d₁ h).2, msiToTar_ok_rootOk d ms hm⟩
+      | err e => rw [hm] at h; simp at h
+      | panic e => rw [hm] at h; simp at h
+      | diverge => rw [hm] at h; simp at h
+    cases noExt with
+    | true =>
+      simp only [if_true, Res.pure_eq, Res.bind_ok'] at h
+      exact fin [] h
+    | false =>
+      simp only [Bool.false_eq_true, if_false] at h
+      cases hp : prehashMsiDir d with
+      | ok p =>
+        rw [hp] at h
+        simp only [Res.bind_ok', Res.pure_eq] at h
+        exact fin _ h
+      | err e => rw [hp] at h; simp at h
+      | panic e => rw [hp] at h; simp at h
+      | diverge => rw [hp] at h; simp at h
 
 end Relic.MsiSign
